@@ -139,6 +139,60 @@ fn live_damage(store: &RawStore, hist: &str, every_bit: bool) -> (u64, Option<Va
     (n, None)
 }
 
+/// A live source replica that has loaded everything, then one of its items is damaged in place; a second
+/// replica (empty, or holding everything but that item) melds from it and refreshes: it may end up without the
+/// item, but what it shows must be the state of the intact, causally complete subset of what it now stores.
+fn meld_from_damaged(store: &RawStore, hist: &str) -> (u64, Option<Value>) {
+    let mut n = 0u64;
+    for (k, b) in store.iter() {
+        let mut variants = crate::props::c11::damage_variants(b);
+        // same-length substitution that keeps JSON well-formed
+        if let Some(i) = b.iter().position(|c| c.is_ascii_digit()) {
+            let mut nb = b.clone();
+            nb[i] = if b[i] == b'9' { b'0' } else { b[i] + 1 };
+            variants.push(("digit-replaced", nb));
+        }
+        for (what, nb) in variants {
+            for target_has_rest in [false, true] {
+                let Ok((src, src_st)) = fresh_on(store, "C10 live source (all loaded)") else { return (n, None) };
+                let base: RawStore = if target_has_rest { store.iter().filter(|(kk, _)| *kk != k).map(|(a, b)| (a.clone(), b.clone())).collect() } else { RawStore::new() };
+                let Ok((mut tgt, tgt_st)) = fresh_on(&base, "C10 meld target") else { continue };
+                src_st.put_raw(k, nb.clone());
+                n += 1;
+                set_trace("C10 meld from a source damaged in place");
+                let r = crate::guard::call("meld", || tgt.meld(&src).map(|_| ()).map_err(|e| e.to_string()));
+                let detail = |e: Value| {
+                    let mut d = e;
+                    d["damage"] = json!(format!("{} of {} in the live source", what, k));
+                    d["target"] = json!(if target_has_rest { "holds every other item" } else { "empty" });
+                    d["input"] = json!({"history_of_store": hist});
+                    d
+                };
+                match r {
+                    Err(p) => return (n, Some(detail(json!({"error": "meld panicked", "panic": p})))),
+                    Ok(Err(_)) => continue,
+                    Ok(Ok(())) => {}
+                }
+                match crate::guard::call("refresh", || tgt.refresh()) {
+                    Err(p) => return (n, Some(detail(json!({"error": "refresh panicked", "panic": p})))),
+                    Ok(Err(_)) => continue,
+                    Ok(Ok(())) => {}
+                }
+                let v = view(&tgt);
+                if v.to_string().contains("panic:") {
+                    return (n, Some(detail(json!({"error": "an accessor panicked after meld + refresh", "view": v}))));
+                }
+                let now = tgt_st.snapshot();
+                let want = fresh_view(&refmodel::complete_substore(&now), "C10 open(intact complete subset)");
+                if v != want {
+                    return (n, Some(detail(json!({"error": "state after meld + refresh differs from the state of the intact, causally complete subset of the target's storage", "differs": diff_keys(&v, &want), "view": v, "expected": want}))));
+                }
+            }
+        }
+    }
+    (n, None)
+}
+
 fn live_damage_rest(n: u64) -> (u64, Option<Value>) {
     (n, None)
 }
@@ -441,6 +495,16 @@ pub fn run(thorough: bool) {
             bad.lock().unwrap().push(("indexed-pack-damaged-before-held-back-block-is-released".to_string(), d));
         }
     }
+    let md: Vec<(u64, Option<Value>)> = stores.par_iter().map(|(hist, store)| meld_from_damaged(store, hist)).collect();
+    let mut md_n = 0;
+    for (n, v) in md {
+        md_n += n;
+        if let Some(d) = v {
+            bad.lock().unwrap().push(("meld-from-a-damaged-source".to_string(), d));
+        }
+    }
+    evals.fetch_add(md_n, Ordering::Relaxed);
+    outcomes.lock().unwrap().insert("meld-from-damaged-source:intact-subset-or-error".into(), md_n);
     evals.fetch_add(live_n, Ordering::Relaxed);
     outcomes.lock().unwrap().insert("live-in-place-damage:content-unaltered-or-error".into(), live_n);
     for (class, d) in bad.into_inner().unwrap() {
@@ -453,7 +517,7 @@ pub fn run(thorough: bool) {
     rep.set("stores", json!(per_store));
     rep.push_sample(json!({"store_from_history": stores.last().map(|s| s.0.clone()), "damage": "every single-bit flip and every truncation of every item, every subset of items deleted, junk menu injected"}));
     rep.set("exhaustive", json!(true));
-    rep.set("rule", json!("for each chosen storage (taken from explored two-replica histories with branches, merges and resolutions): EVERY single-bit flip of EVERY item, truncation of every item to EVERY shorter length, deletion of EVERY subset of items, and a junk menu (arbitrary names, well-formed names with non-matching bytes, valid items under other valid-looking names, correctly named files with malformed contents, empty and non-UTF8 files, an index beyond u32). Each damaged storage is opened with Melda::new, and (every 8th flip / 16th truncation / every injection) presented to a live replica's refresh; accepted outcomes: an error, or a state equal to a fresh open of the intact, causally complete subset (independent raw-byte reference); a panic is a violation. distinct_nontrivial = distinct (damage kind, route, outcome) classes"));
+    rep.set("rule", json!("for each chosen storage (taken from explored two-replica histories with branches, merges and resolutions): EVERY single-bit flip of EVERY item, truncation of every item to EVERY shorter length, deletion of EVERY subset of items, and a junk menu (arbitrary names, well-formed names with non-matching bytes, valid items under other valid-looking names, correctly named files with malformed contents, empty and non-UTF8 files, an index beyond u32). Each damaged storage is opened with Melda::new, and (every 8th flip / 16th truncation / every injection) presented to a live replica's refresh; accepted outcomes: an error, or a state equal to a fresh open of the intact, causally complete subset (independent raw-byte reference); a panic is a violation. Also: a live source replica with one item damaged in place (every item x 6 damage variants) is melded into an empty replica and into one holding every other item, then refreshed: same accepted outcomes. distinct_nontrivial = distinct (damage kind, route, outcome) classes"));
     rep.assume("damage applied to items a live replica has already loaded is not presented through refresh (the statement speaks of opening or refreshing after damage)");
     rep.finish();
 }
